@@ -81,8 +81,9 @@ def main():
     if keep:
         dst = VERIF / "seeded" / keep
         dst.mkdir(parents=True, exist_ok=True)
-        shutil.copy(src / "patch.diff", dst / "patch.diff")
-        shutil.copy(src / "demo.py", dst / "demo.py")
+        if src.resolve() != dst.resolve():
+            shutil.copy(src / "patch.diff", dst / "patch.diff")
+            shutil.copy(src / "demo.py", dst / "demo.py")
         meta = json.loads((src / "meta.json").read_text()) if (src / "meta.json").exists() else {}
         meta["property"] = prop
         meta["verification"] = {k: res[k] for k in res if k not in ("source",)}
